@@ -844,7 +844,7 @@ def smt_expr_to_str(  # noqa: C901
         kind = f.decl().kind()
 
         if kind == z3.Z3_OP_RE_LOOP:
-            op = f"(_ re.loop {f.params()[0]} {f.params()[1]})"
+            op = f"(_ re.loop {' '.join(map(str, f.params()))})"
         elif kind == z3.Z3_OP_RE_POWER:
             op = f"(_ re.^ {f.params()[0]})"
         elif f.decl().kind() in op_strings:
